@@ -34,13 +34,16 @@ RULE = (
 ASSUMPTIONS = [
     "masks are int64 0/1 arrays of shape (n,) for an unbatched observation and (B,n) for a batch (multi-agent: in infos[agent]['action_mask'])",
     "an unbatched observation may be answered with an unbatched action or with a batch of one; trailing singleton axes are not part of the batch shape",
-    "'exploration off' = epsilon 0 (DQN, CQN), always (RainbowDQN, NeuralUCB; NeuralTS for the scripted normal answer 0), training=False (MADDPG/MATD3 discrete); PPO/IPPO have no greedy mode, for them only legality and masks are judged",
+    "'exploration off' = epsilon 0 (DQN, CQN), always (RainbowDQN), training=False (MADDPG/MATD3 discrete: arg-max of the GumbelSoftmax output, whose gumbel uniforms are scripted); PPO/IPPO have no greedy mode, for them only legality and masks are judged",
+    "bandits have no switch: NeuralUCB must maximise its UCB score (= network output for gamma 1e-9; gamma must be > 0) and NeuralTS its sampled score (= network output for normal answer 0) over the allowed arms, up to a float32 error bound of 8 ulp per term",
     "bounds are judged numerically (low <= a <= high per component); the dtype test of Space.contains is not applied to continuous actions",
     "DDPG/TD3 vect_noise_dim equals the batch size of the observation (the documented use); OU state is reset to zero before every call",
     "RainbowDQN: the distributional head cannot express arbitrary q-values; its enumerated outputs are per-action atom profiles {mass on lowest atom, on middle atom, uniform, on highest atom} for supports [-1,0,1] and [-1e9,0,1e9]",
     "NeuralUCB/NeuralTS score one scalar per arm: per-arm outputs are driven through an identity path of the real network (mu_k = context_k[0]); sigma_inv is reset to lambda*I before every call",
     "rows of a batch are independent in every get_action (checked by the S lattice against the W lattice alphabets), which is what lets the W lattice place the mask x draw product along the batch axis",
-    "env-defined actions offered to multi-agent get_action are legal members of the action space",
+    "env-defined actions offered to multi-agent get_action are legal members of the action space and allowed by the mask; a non-vectorised env gives an int / array / None per agent, a vectorised env an array with NaN where nothing is defined",
+    "IPPO with squash_output is built from hand-made StochasticActor/ValueNetwork lists (IPPO(net_config={'squash_output': True}) cannot be constructed: the key is forwarded to ValueNetwork)",
+    "DQN/CQN/RainbowDQN are run on Discrete(n) only (QNetwork also accepts MultiDiscrete but get_action then returns a flat index; not judged)",
 ]
 
 FAMS = {}
